@@ -612,7 +612,14 @@ func (fx *FnExec) applyContract(con *Contract, key string, recv *Val, args []Val
 		fx.oblige("pre", lab, t, "precondition of "+displayKey(key)+": "+r.Text, pos)
 	}
 	if fx.con != nil && fx.con.CallPre != nil {
-		ck := fmt.Sprintf("%s@%d", shortName(key), callOrd)
+		// the clause names the callee by its short name, or - where two callees share it - by its display key with or
+		// without the package prefix
+		dk := displayKey(key)
+		cks := []string{fmt.Sprintf("%s@%d", shortName(key), callOrd), fmt.Sprintf("%s@%d", dk, callOrd)}
+		if i := strings.Index(dk, "."); i >= 0 {
+			cks = append(cks, fmt.Sprintf("%s@%d", dk[i+1:], callOrd))
+		}
+		for _, ck := range cks {
 		fx.seenCallPre[ck] = true
 		for i, r := range fx.con.CallPre[ck] {
 			cenv := fx.specEnv(&fx.cur, &fx.entry, nil)
@@ -634,6 +641,7 @@ func (fx *FnExec) applyContract(con *Contract, key string, recv *Val, args []Val
 			}
 			o := fx.oblige("callpre", lab, t, "before the call of "+displayKey(key)+": "+r.Text, pos)
 			o.Props = fx.con.Props
+		}
 		}
 	}
 	old := fx.cur.clone()
@@ -943,12 +951,23 @@ func (fx *FnExec) ret(x *ssa.Return) error {
 				continue // bookkeeping of the call event: assumed at call sites only
 			}
 			env := fx.specEnv(&fx.cur, &fx.entry, results)
+			var guards []string
+			if en.Kind == "lensures" {
+				fx.localGuards = &guards
+			}
 			t, err := env.evalBool(en.Text)
+			fx.localGuards = nil
 			if err != nil {
 				if en.Kind == "lensures" && strings.Contains(err.Error(), "unknown identifier") {
-					continue // mentions a local that is not defined at this return
+					continue // mentions a local that is not defined on any path to this return
 				}
 				return fmt.Errorf("%s:%d: %v", en.File, en.Line, err)
+			}
+			if en.Kind == "lensures" {
+				fx.lensEvaluated[fmt.Sprintf("%s:%d", en.File, en.Line)] = true
+			}
+			for _, g := range dedup(guards) {
+				t = sImp(g, t)
 			}
 			lab := en.Label
 			if lab == "" {
